@@ -182,8 +182,9 @@ ASMJIT_FAVOR_SIZE Error init_call_conv(CallConv& cc, CallConvId call_conv_id, co
         cc.set_flags(CallConvFlags::kPassFloatsByVec |
                     CallConvFlags::kPassMmxByGp     );
         cc.set_natural_stack_alignment(16);
-        // Maximum 6 arguments in registers, each adds 8 bytes to the spill zone.
-        cc.set_spill_zone_size(6 * 8);
+        // The home space is the same as in Win64 - 4 slots. The 5th and 6th argument own a stack slot as well (see
+        // `init_func_detail()`), but it's only there if the function has that many arguments.
+        cc.set_spill_zone_size(4 * 8);
         cc.set_passed_order(RegGroup::kGp, kZcx, kZdx, 8, 9);
         cc.set_passed_order(RegGroup::kVec, 0, 1, 2, 3, 4, 5);
         cc.set_preserved_regs(RegGroup::kGp, Support::bit_mask<RegMask>(kZbx, kZsp, kZbp, kZsi, kZdi, 12, 13, 14, 15));
@@ -444,6 +445,10 @@ ASMJIT_FAVOR_SIZE Error init_func_detail(FuncDetail& func, const FuncSignature& 
       for (uint32_t arg_index = 0; arg_index < arg_count; arg_index++) {
         unpack_values(func, func._args[arg_index]);
 
+        // Stack slots are positional as well - each argument owns the 8-byte slot that corresponds to its index
+        // regardless of how it's passed (slots of arguments passed in registers form the home space).
+        stack_offset = arg_index * 8u;
+
         for (uint32_t value_index = 0; value_index < Globals::kMaxValuePack; value_index++) {
           FuncValue& arg = func._args[arg_index][value_index];
 
@@ -469,7 +474,6 @@ ASMJIT_FAVOR_SIZE Error init_func_detail(FuncDetail& func, const FuncSignature& 
             }
             else {
               arg.assign_stack_offset(int32_t(stack_offset));
-              stack_offset += 8;
             }
             continue;
           }
@@ -512,13 +516,13 @@ ASMJIT_FAVOR_SIZE Error init_func_detail(FuncDetail& func, const FuncSignature& 
               }
               arg.add_flags(FuncValue::kFlagIsIndirect);
             }
-
-            // Always 8 bytes (float/double/pointer).
-            stack_offset += 8;
             continue;
           }
         }
       }
+
+      // The stack always has the home space (spill zone) of the first four arguments.
+      stack_offset = Support::max<uint32_t>(cc._spill_zone_size, arg_count * 8u);
       break;
     }
   }
